@@ -510,15 +510,20 @@ def main(ctx):
         p = subprocess.Popen([hs], stdin=subprocess.PIPE, stdout=subprocess.PIPE, stderr=subprocess.PIPE, text=True, env=env)
         p.stdin.write(line)
         p.stdin.close()
+        p.stdin = None            # so that communicate() below does not touch the closed pipe
         procs.append((line.strip(), p))
     soak = {"rounds": 0, "bad": 0, "maxextra": 0, "extra0": 0, "extra1": 0, "fails": {}, "kinds": {}, "race_build": race}
     races = []
     soak_err = []
     for line, p in procs:
         try:
-            out = p.stdout.read()
-            errt = p.stderr.read()
-            p.wait(timeout=1200)
+            out, errt = p.communicate(timeout=240 if quick else 1500)
+        except subprocess.TimeoutExpired:
+            p.kill()
+            p.communicate()
+            ctx.violation("soak:hang", "the soak did not finish: a call never returned after an interrupt (%s)" % line,
+                          {"kind": "schedule", "lines": [line], "symptom": "hang"})
+            continue
         except Exception as e:
             soak_err.append("%s: %s" % (line, e))
             continue
